@@ -329,6 +329,7 @@ def main(argv):
             "rule, trusted). Not decided: actually reaching 2^63 owners at run time."
             ' Added later: an increment by `compare_exchange(cur, new)` between constants is a bounded site (new - cur = 1, new below the limit) and the guard is judged per path; also decided on configuration arm32 (32-bit limit).'
             ' The union dispatch rules (a clone made through an ArcUnion increments and tests the count word of the Arc it holds).'
+            " Round fourteen: R-OFFSET as a premise (a clone made from a value pointer tests the word at the payload's true offset); the guard may test a value merged from the increment's result and the constant old value of a bounded CAS increment."
         ),
         rule_text="instances = guard clauses at the increment site, abort resolution per configuration, clone entry points",
         trusted_base=["rustc const evaluation of the limit and MIR", "panic while panicking aborts", "std::process::abort does not return or unwind"],
